@@ -2,6 +2,7 @@ import ScriggoV.Lemmas.LinkDest
 import ScriggoV.Lemmas.LinkDestScan
 import ScriggoV.Lemmas.LinkDestUrl
 import ScriggoV.Lemmas.LinkDestFence
+import ScriggoV.Lemmas.LinkDestInline
 /-! C29 — rewriting Markdown link destinations changes only link destinations.
 
 What is proved here is the part of the property that is arithmetic on bytes: the splice of
@@ -12,6 +13,7 @@ explored with goldmark by the harness (go/props/c29), not proved. Property theor
 lemmas are in `Lemmas/LinkDest.lean`. -/
 namespace ScriggoV.LinkDest
 open ScriggoV.Gen.LinkDestTables ScriggoV.CommonMarkDest ScriggoV.CommonMarkFence ScriggoV.CommonMarkLex
+open ScriggoV.Gen.LinkDestInline ScriggoV.CommonMarkCodeSpan
 
 /-! ### applyReplacements -/
 
@@ -272,6 +274,95 @@ def sampleExtent : BlockExtent 96 4 [bt 3, linkLine, bt 3, bt 4, [120]] where
     intro c rest h
     cases h
     exact ⟨0, 4, [], by decide, by decide, by decide, by decide⟩
+
+/-! ### code spans: backslashes inside them are literal (CommonMark §6.1, §2.4)
+
+`scanInline` tries the tests of the per-byte loop of scanInlineLinks in the order the source has
+them (`Gen.LinkDestInline.loopOrder`, regenerated on every check): with the backslash-escape
+test moved before the code-span test these theorems no longer hold. -/
+
+/-- **the order of the tests**: the backslash-escape test is reached only when the byte is not
+inside a code span, not inside a comment / declaration / processing instruction / CDATA section,
+not inside a raw text element and not inside an HTML element — the four tests that consume the
+byte in those states come before it -/
+theorem escape_after_literal_contexts :
+    ∀ t ∈ [Test.codeSpan, Test.rawCloser, Test.rawTag, Test.inHTML],
+      loopOrder.idxOf t < loopOrder.idxOf Test.escape := by decide
+
+/-- **`codespan_content_literal`**, for every line that continues with a code span and every
+state of the bracket stack: a backtick string of `n` backticks, a content in which every
+backtick string is shorter than `n` (so that the scanner's and CommonMark's closing string are
+the same: `codeSpanContent_of_stringsBelow`), and the closing string of `n` backticks are passed
+over as a whole — no destination is collected inside, and the scan goes on after the closing
+string in the state it had before the opening one. Nothing is assumed about backslashes: the
+content is any bytes, the right-hand side mentions only its length. In particular a content that
+ends in a backslash (`` `\` ``, `` `C:\dir\` ``) does not hide the closing backtick. -/
+theorem codespan_content_literal (n : Nat) (body rest : Bytes) (depth pos : Nat) (hn : 0 < n)
+    (hb : body ≠ []) (hh : body.head? ≠ some 96) (hl : body.getLast? ≠ some 96)
+    (hs : stringsBelow n body = true) (hr : rest.head? ≠ some 96) :
+    scanInline 0 depth 0 pos (ticks n ++ (body ++ (ticks n ++ rest))) =
+      scanInline 0 depth 0 (pos + (n + body.length + n)) rest :=
+  scanInline_codespan n body rest depth pos hn hb hh hl hs hr
+
+/-- a content whose backtick strings are all shorter than `n` is a CommonMark code-span content
+for an opening string of `n` -/
+theorem codeSpanContent_of_stringsBelow (n : Nat) (body : Bytes) (hb : body ≠ [])
+    (hh : body.head? ≠ some 96) (hl : body.getLast? ≠ some 96) (hs : stringsBelow n body = true) :
+    CodeSpanContent n body := by
+  refine ⟨hb, hh, hl, ?_⟩
+  have : ∀ (l : Bytes) (pt : Bool), stringsBelow n l = true → noStringOf n pt l = true := by
+    intro l
+    induction l with
+    | nil => intro _ _; rfl
+    | cons c r ih =>
+      intro pt h
+      simp only [stringsBelow, Bool.and_eq_true, decide_eq_true_eq] at h
+      simp only [noStringOf, Bool.and_eq_true, Bool.or_eq_true, bne_iff_ne, ne_eq]
+      exact ⟨Or.inr (by omega), ih _ h.2⟩
+  exact this body false hs
+
+/-- the state after a code span does not depend on what is inside it: two contents of the same
+length, with backslashes or without, leave the scan in the same place -/
+theorem codespan_state_independent_of_content (n : Nat) (body₁ body₂ rest : Bytes) (depth pos : Nat)
+    (hn : 0 < n) (hlen : body₁.length = body₂.length)
+    (hb₁ : body₁ ≠ []) (hh₁ : body₁.head? ≠ some 96) (hl₁ : body₁.getLast? ≠ some 96)
+    (hs₁ : stringsBelow n body₁ = true)
+    (hb₂ : body₂ ≠ []) (hh₂ : body₂.head? ≠ some 96) (hl₂ : body₂.getLast? ≠ some 96)
+    (hs₂ : stringsBelow n body₂ = true) (hr : rest.head? ≠ some 96) :
+    scanInline 0 depth 0 pos (ticks n ++ (body₁ ++ (ticks n ++ rest))) =
+      scanInline 0 depth 0 pos (ticks n ++ (body₂ ++ (ticks n ++ rest))) := by
+  rw [codespan_content_literal n body₁ rest depth pos hn hb₁ hh₁ hl₁ hs₁ hr,
+    codespan_content_literal n body₂ rest depth pos hn hb₂ hh₂ hl₂ hs₂ hr, hlen]
+
+/-- the full statement: the same for every CommonMark code-span content (no backtick string of
+exactly `n`; longer and shorter ones allowed) -/
+def CodespanContentLiteralFull : Prop :=
+  ∀ (n : Nat) (body rest : Bytes) (depth pos : Nat), 0 < n → CodeSpanContent n body →
+    rest.head? ≠ some 96 →
+    scanInline 0 depth 0 pos (ticks n ++ (body ++ (ticks n ++ rest))) =
+      scanInline 0 depth 0 (pos + (n + body.length + n)) rest
+
+/-- false of the code today: inside a code span of `n` the loop advances one byte at a time over
+a longer backtick string and takes its last `n` backticks for the closing string. In
+`` `a``b` [x](y) `` the code span ends, for the scanner, inside the double backtick, the last
+backtick opens a new one and the link is not seen (with the pieces the other way round,
+`` ` ``[](a)` ``, link syntax inside the code span is rewritten) — known finding
+`ld-code-span-closed-inside-longer-run` -/
+theorem not_CodespanContentLiteralFull : ¬ CodespanContentLiteralFull := by
+  intro h
+  have := h 1 [97, 96, 96, 98] [32, 91, 120, 93, 40, 121, 41] 0 0 (by decide)
+    ⟨by decide, by decide, by decide, by decide⟩ (by decide)
+  revert this
+  decide
+
+-- non-vacuity: `` `C:\dir\` `` and `` ``a\`b`` `` are code-span contents below their delimiters;
+-- the link after `` `\` `` is found where it stands, link syntax inside `` `[a](b)\` `` is not
+def bsl : UInt8 := 92
+example : stringsBelow 1 [67, 58, bsl, 100, 105, 114, bsl] = true := by decide
+example : stringsBelow 2 [97, bsl, 96, 98] = true := by decide
+example : scanInlineLinks (ticks 1 ++ [bsl] ++ ticks 1 ++ [32, 91, 120, 93, 40, 121, 41]) = some [(8, 9)] := by decide
+example : scanInlineLinks (ticks 1 ++ [91, 97, 93, 40, 98, 41, bsl] ++ ticks 1) = some [] := by decide
+example : scanInlineLinks [bsl, 96, 91, 120, 93, 40, 121, 41, 96] = some [(6, 7)] := by decide
 
 /-! ### which destinations are rewritten, with net/url as a parameter -/
 
